@@ -219,7 +219,25 @@ func scenario(seed uint64, idx int, tier string, root string) []runRes {
 		req2 := req
 		req2.Head = top
 		req2.Final = base
-		w.Run(dir+"-lin", req2, sys.Opts{Timeout: 12 * time.Second, OnPipe: func(p *pipeline.Pipeline) { pipe2 = p }})
+		// the canonical chain alone, with the very blocks (ids, hence contents) it is made of, through the same resolver
+		byID := map[string]sys.FBlock{}
+		for _, a := range arrivals {
+			byID[a.ID] = a
+		}
+		var lin []sys.FBlock
+		for _, b := range stack {
+			if fb, ok := byID[b.id]; ok {
+				lin = append(lin, fb)
+			}
+		}
+		var rec2 []sys.RecStep
+		w.Run(dir+"-lin", req2, sys.Opts{Timeout: 12 * time.Second, OnPipe: func(p *pipeline.Pipeline) { pipe2 = p },
+			Feed: sys.ForkFeed(lin, base, storeOrder, &rec2, &pipe2)})
+		for _, s2 := range rec2 {
+			if s2.Kind == "undo" {
+				panic("harness: the linear replay of the canonical chain contains an undo")
+			}
+		}
 		defer os.RemoveAll(dir + "-lin")
 		if pipe2 != nil {
 			want := sys.RenderStores(pipe2, storeOrder)
